@@ -267,6 +267,7 @@ theorem CInv_setPrio {W : Nat} {s s' : St} {id : Nat} {p : Int} (inv : CInv W s)
       · simp only [Option.some.injEq] at h; subst h; cinv_open inv; cinv_close
       · simp only [Option.some.injEq] at h; subst h; exact inv
     · simp only [Option.some.injEq, hok] at h; subst h; cinv_open inv
+      have hla : (adjustAll s s.heap).length = s.heap.length := length_adjustAll s s.heap
       constructor <;> grind [dLoop, dClosed, dFW, dHold, dHand, pipeN, List.length_map]
 
 theorem CInv_step {W : Nat} {s s' : St} {a : Act} (ids : IdInv s) (inv : CInv W s) (hok : actOK s a)
